@@ -39,6 +39,13 @@ pub mod mb {
     pub struct Cfg(pub u8);
 }
 
+/// a type with a `char` const-generic argument: its name contains apostrophes, like a lifetime does
+#[derive(Clone, Copy)]
+pub struct Qty<const U: char>(pub i64);
+/// long type names that differ only in the middle (element 20 of 40)
+pub type LongA = ((u64, u64, u64, u64, u64, u64, u64, u64, u64, u64), (u64, u64, u64, u64, u64, u64, u64, u64, u64, u64), (u32, u64, u64, u64, u64, u64, u64, u64, u64, u64), (u64, u64, u64, u64, u64, u64, u64, u64, u64, u64));
+pub type LongB = ((u64, u64, u64, u64, u64, u64, u64, u64, u64, u64), (u64, u64, u64, u64, u64, u64, u64, u64, u64, u64), (i32, u64, u64, u64, u64, u64, u64, u64, u64, u64), (u64, u64, u64, u64, u64, u64, u64, u64, u64, u64));
+
 macro_rules! plain_member {
     ($v:ident, $class:expr, $label:expr, $lt:expr, $tgt:ident, $rep:ident, ($($an:ident : $at:ty),*) -> $ret:ty, $tv:expr, $rv:expr, $cl:expr) => {{
         #[inline(never)]
@@ -98,6 +105,12 @@ pub fn family() -> Vec<Member> {
     plain_member!(v, 27, "fn(i32, &mb::Cfg) -> i64", false, t27, r27, (a: i32, b: &mb::Cfg) -> i64, 1027, 2027, |_a: i32, _b: &mb::Cfg| -> i64 { 2027 });
     plain_member!(v, 28, "fn(i32, &u8) -> std::fmt::Result", false, t28, r28, (a: i32, b: &u8) -> std::fmt::Result, Ok(()), Err(std::fmt::Error), |_a: i32, _b: &u8| -> std::fmt::Result { Err(std::fmt::Error) });
     plain_member!(v, 29, "fn(i32, &u8) -> std::io::Result<()>", false, t29, r29, (a: i32, b: &u8) -> std::io::Result<()>, Ok(()), Ok(()), |_a: i32, _b: &u8| -> std::io::Result<()> { Ok(()) });
+    // types that differ only inside a `char` const-generic argument (spelled with apostrophes in the type name)
+    plain_member!(v, 30, "fn(i32, &u8) -> Qty<'m'>", false, t30, r30, (a: i32, b: &u8) -> Qty<'m'>, Qty::<'m'>(1030), Qty::<'m'>(2030), |_a: i32, _b: &u8| -> Qty<'m'> { Qty::<'m'>(2030) });
+    plain_member!(v, 31, "fn(i32, &u8) -> Qty<'s'>", false, t31, r31, (a: i32, b: &u8) -> Qty<'s'>, Qty::<'s'>(1031), Qty::<'s'>(2031), |_a: i32, _b: &u8| -> Qty<'s'> { Qty::<'s'>(2031) });
+    // very long type names (> 400 bytes) that differ only in the middle
+    plain_member!(v, 32, "fn(i32, &LongA) -> i64", false, t32, r32, (a: i32, b: &LongA) -> i64, 1032, 2032, |_a: i32, _b: &LongA| -> i64 { 2032 });
+    plain_member!(v, 33, "fn(i32, &LongB) -> i64", false, t33, r33, (a: i32, b: &LongB) -> i64, 1033, 2033, |_a: i32, _b: &LongB| -> i64 { 2033 });
     // lifetime re-spellings of the base (same structure; exercised, not judged)
     plain_member!(v, 0, "for<'a> fn(i32, &'a u8) -> i64", true, t17, r17, (a: i32, b: &u8) -> i64, 1017, 2017, |_a: i32, _b: &u8| -> i64 { 2017 });
     {
